@@ -298,7 +298,11 @@ pub fn case(ch: &mut Choices, ctx: &CaseCtx) -> CaseOut {
                 wordname = "get";
             }
             4 => {
-                src = format!("[ c{} foreach I loop ]", i);
+                // (1 in 4: the collection carries a tag while it is iterated - the items and the index words are the same)
+                src = match ch.weighted(&[3, 1]) {
+                    0 => format!("[ c{} foreach I loop ]", i),
+                    _ => format!("[ c{} 1 \"k\" insert-tag foreach I loop ]", i),
+                };
                 wordname = "foreach";
                 want = match &cur {
                     V::Map(m) => Want::PairsMultiset(m.clone()),
@@ -391,14 +395,32 @@ pub fn case(ch: &mut Choices, ctx: &CaseCtx) -> CaseOut {
             10 => {
                 let n = ch.below(4);
                 let items: Vec<V> = (0..n).map(|_| val::gen_value(ch, 1)).collect();
-                let cnt: i128 = match ch.weighted(&[6, 1, 1]) {
+                // in a meta block the word sees the block's own items only, whatever the program holds below
+                let in_block = ch.chance(1, 4);
+                let cnt: i128 = match ch.weighted(&[6, 2, 1, 1, if in_block && !held.is_empty() { 2 } else { 0 }]) {
                     0 => n as i128,
-                    1 => (n + held.len() + 1 + ch.below(3)) as i128,
-                    _ => *[-1, 1i128 << 64, i128::MAX].get(ch.below(3)).unwrap(),
+                    1 => ch.below(n + 1) as i128,
+                    2 => (n + held.len() + 1 + ch.below(3)) as i128,
+                    3 => *[-1, 1i128 << 64, i128::MAX].get(ch.below(3)).unwrap(),
+                    _ => (n + 1 + ch.below(held.len())) as i128,
                 };
-                src = format!("{} {} collect", items.iter().map(val::src).collect::<Vec<_>>().join(" "), cnt);
+                let body = format!("{} {} collect", items.iter().map(val::src).collect::<Vec<_>>().join(" "), cnt);
                 wordname = "collect";
-                want = if cnt == n as i128 { Want::Values(vec![V::Vec(items)]) } else { Want::Fail };
+                let partial = cnt >= 0 && (cnt as u128) < n as u128;
+                if in_block && !partial {
+                    src = format!("#( {} #)", body);
+                    want = if cnt == n as i128 { Want::Values(vec![V::Vec(items)]) } else { Want::Fail };
+                } else {
+                    src = body;
+                    want = if cnt >= 0 && (cnt as u128) <= n as u128 {
+                        let k = n - cnt as usize;
+                        let mut vs: Vec<V> = items[..k].to_vec();
+                        vs.push(V::Vec(items[k..].to_vec()));
+                        Want::Values(vs)
+                    } else {
+                        Want::Fail
+                    };
+                }
             }
             11 => {
                 src = format!("c{} unbox", i);
